@@ -109,15 +109,20 @@ engine_prop('C08', ['C08'], CAN_FIELDS, set(), results=True)
 engine_prop('C09', ['C09'], PHASE_FIELDS | CHIP_FIELDS | CARD_FIELDS, ALL_OPS, directed={'ante_allin': 0.04})
 engine_prop('C10', ['C10'], DEAL_FIELDS, DEAL_OPS, directed={'exact_deck': 0.08})
 engine_prop('C12', ['C12'], SHOW_FIELDS | CHIP_FIELDS, SHOW_OPS)
-engine_prop('C11', ['C11'], {'variant_table', 'min_cbr', 'pot_cbr', 'max_cbr', 'can_cbr', 'cbrCnt', 'cbrAmt'},
-            {'CompletionBettingOrRaisingTo'}, profile={'predefined': True}, pre=pre_c11)
+# C11's statement covers, per variant, the hole cards and facings and the board cards of every street, the
+# betting structure, caps and bet sizes: the dealing slice belongs to it as well as the raise sizes
+engine_prop('C11', ['C11', 'C11deal'], {'variant_table', 'min_cbr', 'pot_cbr', 'max_cbr', 'can_cbr', 'cbrCnt', 'cbrAmt'} | DEAL_FIELDS,
+            {'CompletionBettingOrRaisingTo'} | DEAL_OPS, profile={'predefined': True}, pre=pre_c11)
 def pre_c16():
     import phh
     r = phh.check_parse_lines(20250916, 4000)
     pseudo = [dict(case='parse-action', seed=0, at_op=0, line_no=0, expected=d['expected'], actual=d['actual'],
                    fields=[('phh', d['expected'], d['actual'])], script=['case parse-action', 'parseline ' + d['input']],
                    meta={'variant': 'custom', 'line': d['input']}) for d in r['diffs']]
-    return dict(diffs=pseudo, coverage=dict(parsed_action_lines=r['count'], parse_differences=len(r['diffs'])))
+    c = phh.check_commentary(20250916, 300)
+    return dict(diffs=pseudo, viols=c['viols'],
+                coverage=dict(parsed_action_lines=r['count'], parse_differences=len(r['diffs']),
+                              commented_hands=c['count'], commentary_violations=len(c['viols'])))
 
 
 engine_prop('C16', ['C16'], {'phh'}, set(), profile={'predefined': True}, pre=pre_c16)
@@ -148,6 +153,9 @@ def decide_engine(pid, spec, tier, seed, theorems, t0):
     res = fw.correspondence(seed, count, spec['monitors'], profile=spec.get('profile'), tag=pid,
                             directed=spec.get('directed'))
     mine = [v for v in res['viols'] if v['property'] == pid]
+    pre = spec['pre']() if spec.get('pre') else None
+    if pre and pre.get('viols'):
+        mine = mine + list(pre['viols'])
     matched, fresh = {}, []
     for v in mine:
         k = fw.match_known(v, known)
@@ -157,7 +165,6 @@ def decide_engine(pid, spec, tier, seed, theorems, t0):
             matched.setdefault(k['id'], (k, v))
     hits = [d for d in res['diffs'] if slice_hit(spec, d)]
     other = len(res['diffs']) - len(hits)
-    pre = spec['pre']() if spec.get('pre') else None
     if pre:
         hits = pre['diffs'] + hits
     rc = 0
@@ -246,6 +253,13 @@ def replay(pid: str, spec: dict, path: str) -> int:
     d = json.load(open(path))
     if spec['kind'] == 'eval':
         return replay_eval(pid, d)
+    if d.get('meta', {}).get('commentary_seed') is not None:
+        vs = phh.commentary_violations(d['meta']['commentary_seed'])
+        for sig, detail in vs:
+            print(f'reproduced: property={pid} clause=commentary signature={sig}: {detail[:300]}')
+        if not vs:
+            print('not reproduced on the current tree: commentary round trip')
+        return 1 if vs else 0
     mons = [monitors.ALL[m]() for m in spec.get('monitors', []) if m in monitors.ALL]
     impl.replay_script(d['script'], mons, d.get('valid'))
     vs = [v for m in mons for v in m.violations if v['property'] == pid]
